@@ -97,7 +97,17 @@ def gen_verdict_decls(rng, tier):
         b.add(inner, [block("validate", [E, W]), D(dr)], "ok")
         b.add(inner, [block("validate", [W]), D(dr)], "parse:with_without_error")
         b.add(inner, [block("validate", [E]), D(dr)], "parse:error_without_with")
-        b.add(inner, [block("validate", [W, E, [tid("predicate"), EQ, tfn(0, "p", "p")]]), D(dr)], "parse:with_error_mixed")
+        P = [tid("predicate"), EQ, tfn(0, "p", "p")]
+        for order in ([W, E, P], [W, P, E], [P, W, E], [E, W, P], [E, P, W], [P, E, W], [P, W], [W, P], [P, E], [E, P]):
+            b.add(inner, [block("validate", order), D(dr)], "parse:with/error mixed with a built-in validator")
+        if fam == "str":
+            NE = [tid("not_empty")]
+            for order in ([NE, [tid("len_char_max"), EQ, li(5)], W, E], [NE, W, E], [W, NE, E]):
+                b.add(inner, [block("validate", order), D(dr)], "parse:with/error mixed with a built-in validator")
+        if fam in ("int", "float"):
+            GE = [tid("greater_or_equal"), EQ, (lf("0.0") if fam == "float" else li(0))]
+            for order in ([GE, W, E], [W, GE, E], [W, E, GE]):
+                b.add(inner, [block("validate", order), D(dr)], "parse:with/error mixed with a built-in validator")
         b.add(inner, [block("validate", [W, W, E]), D(dr)], "parse:duplicate_with")
         b.add(inner, [block("validate", [W, E, E]), D(dr)], "parse:duplicate_error")
         b.add(inner, [block("validate", [[tid("with"), EQ, tfn(0, "c00", "c")], E]), D(dr)], "rustc:known:custom_with_closure")
@@ -115,6 +125,17 @@ def gen_verdict_decls(rng, tier):
                 for lo, hi in ((3, 9), (5, 5), (5, 6), (9, 3), (5, 7)):
                     b.add(ty, [block("validate", [[tid(lk), EQ, mk(lo)], [tid(uk), EQ, mk(hi)]]), D(["Debug"])], "bounds %s %s %d %d" % (lk, uk, lo, hi))
                     b.add(ty, [block("validate", [[tid(uk), EQ, mk(hi)], [tid(lk), EQ, mk(lo)]]), D(["Debug"])], "bounds %s %s %d %d" % (lk, uk, lo, hi))
+        # the same contradictions spelled with digit separators / exponents (still literals)
+        for lk in LOWER:
+            for uk in UPPER:
+                if ty in ("i32",):
+                    pairs = [("50_000", "10_000"), ("50000", "10_000"), ("1_000", "1_000"), ("1_000", "2_000")]
+                elif ty == "u8":
+                    pairs = [("2_00", "1_00"), ("1_0", "1_0"), ("1_0", "2_0")]
+                else:
+                    pairs = [("1_000.0", "1.0"), ("1e3", "1_0.0"), ("1_0.5", "1_0.5"), ("1_0.5", "2_0.5")]
+                for lo_t, hi_t in pairs:
+                    b.add(ty, [block("validate", [[tid(lk), EQ, tx(lit(lo_t))], [tid(uk), EQ, tx(lit(hi_t))]]), D(["Debug"])], "bounds spelled %s %s" % (lo_t, hi_t))
         b.add(ty, [block("validate", [[tid("greater"), EQ, mk(1)], [tid("greater_or_equal"), EQ, mk(2)]])], "validate:greater_and_greater_or_equal")
         b.add(ty, [block("validate", [[tid("less"), EQ, mk(8)], [tid("less_or_equal"), EQ, mk(9)]])], "validate:less_and_less_or_equal")
     # the same contradictions written as expressions are invisible to the macro
@@ -123,6 +144,8 @@ def gen_verdict_decls(rng, tier):
                ("LO", ty, 9 if ty == "i32" else fbits("9.0", True), "const LO: %s = %s;" % (ty, val))]
         b.add(ty, [block("validate", [[tid("greater"), EQ, tx(k("LO"))], [tid("less"), EQ, tx(k("HI"))]]), D(["Debug"])], "ok", env=env)
         b.add(ty, [block("validate", [[tid("greater"), EQ, tx(k("LO"))], [tid("greater_or_equal"), EQ, tx(k("HI"))]]), D(["Debug"])], "ok", env=env)
+    for mn_t, mx_t in (("1_000", "10"), ("1_0", "1_000"), ("1_0", "1_0")):
+        b.add("String", [block("validate", [[tid("len_char_min"), EQ, tx(lit(mn_t))], [tid("len_char_max"), EQ, tx(lit(mx_t))]])], "len spelled")
     for mn, mx in ((1, 3), (3, 3), (4, 3), (0, 0)):
         b.add("String", [block("validate", [[tid("len_char_min"), EQ, li(mn)], [tid("len_char_max"), EQ, li(mx)]])], "len %d %d" % (mn, mx))
         b.add("String", [block("validate", [[tid("len_char_max"), EQ, li(mx)], [tid("len_char_min"), EQ, li(mn)]])], "len %d %d" % (mn, mx))
@@ -265,7 +288,7 @@ def gen_c02_decls(rng, tier):
     n = 0
     for ty in types:
         lo, hi = ity_min(ty), ity_max(ty)
-        vals = [v for v in (-7, 0, 16, 100, lo + 2, hi - 2) if lo < v < hi]
+        vals = [v for v in (-7, 0, 16, 100, lo + 2, hi - 2, hi, lo, hi - 1, lo + 1) if lo <= v <= hi]
         for si, style in enumerate(INT_STYLES):
             for ki, kind in enumerate(LOWER + UPPER):
                 v = vals[(si + ki + n) % len(vals)]
@@ -300,6 +323,17 @@ def gen_c02_decls(rng, tier):
             d = b.add("String", [block("validate", [[tid(kind), EQ, tx(e)]]), D(["Debug"])], "spelling", env=env)
             d.rule = (kind, v)
             d.tags.add("spelling")
+    # ---- rule sets the macro cannot honour as a whole: they must be refused, not thinned
+    W, E = [tid("with"), EQ, tfn(0, "p", "c")], [tid("error"), EQ, tpath("CErr")]
+    for inner, builtin in (("i32", [tid("greater_or_equal"), EQ, li(0)]), ("f64", [tid("finite")]),
+                           ("String", [tid("not_empty")]), ("Vec<i32>", [tid("predicate"), EQ, tfn(0, "p", "p")])):
+        for order in ([builtin, W, E], [W, builtin, E], [W, E, builtin], [E, builtin, W]):
+            d = b.add(inner, [block("validate", order), D(["Debug"])], "must be refused")
+            d.tags.add("mustreject")
+    for blocks in ([block("validate", [[tid("greater"), EQ, li(10)]]), block("validate", [[tid("less"), EQ, li(5)]])],
+                   [block("sanitize", [[tid("with"), EQ, tfn(0, "p", "s")]]), block("sanitize", [[tid("with"), EQ, tfn(1, "p", "s")]])]):
+        d = b.add("i32", blocks + [D(["Debug"])], "must be refused")
+        d.tags.add("mustreject")
     # ---- layout families
     fam_id = 0
 
